@@ -166,3 +166,14 @@ def gen_C20(tier, rng):
     for ty in TYPES:
         yield (case(ty, 16, 1, 8, 1, 4, b"", b"12345678", b"", b""), "accepted.min")
         yield (case(ty, 19, 1, 0, 1, 4, b"", b"", b"", b""), "accepted.m0")
+        # the documented-unchecked ranges: tag lengths 1..3 (0 is refused, see _refused), salt shorter than 8 bytes,
+        # memory below 8 blocks per lane (raised silently): accepted, identically in every build profile
+        for tl in (1, 2, 3, 4, 5):
+            yield (case(ty, 19, 1, 8, 1, tl, b"pw", b"saltsalt", b"", b""), "accepted.taglen")
+        for sl in (0, 1, 7, 8):
+            yield (case(ty, 19, 1, 8, 1, 32, b"pw", rng.rbytes(sl), b"", b""), "accepted.saltlen")
+        for (m, p) in ((0, 1), (7, 1), (8, 1), (9, 1), (15, 2), (16, 2), (17, 2)):
+            yield (case(ty, 19, 1, m, p, 32, b"pw", b"saltsalt", b"", b""), "accepted.mlow")
+        # the legal neighbours of the refused setter values
+        for (v, t, p) in ((16, 1, 1), (19, 1, 1), (19, 2, 1), (19, 1, 2)):
+            yield (case(ty, v, t, 8 * p, p, 32, b"pw", b"saltsalt", b"", b""), "accepted.setters")
